@@ -425,6 +425,19 @@ Alloc(st, obj) == [st |-> [st EXCEPT !.heap = Append(@, obj)], l |-> Len(st.heap
 \* "unspec-use-position" (only "no crash" is demanded of the implementation there).
 NoPend(r) == IF r.st.pend # "" THEN E([r.st EXCEPT !.pend = ""], "unspec-use-position") ELSE r
 DirectUse(s) == s.k = "call" /\ s.f = "use"
+\* A use call that is the first thing its statement evaluates - the value of add_key(k, use("n")), the source of v = use("n"),
+\* the only argument of probe(use("n")) - is specified too: the callee runs first, then the statement with "no value" in the
+\* call's place; a callee's error passes through every call that was in progress (add_key appends its own call site: wrap).
+NoLead == [is |-> FALSE, name |-> "", wrap |-> 0]
+LeadUse(s) ==
+  IF s.k = "call" /\ s.f = "add_key" /\ Len(s.as) = 2 /\ DirectUse(s.as[2]) /\ Len(s.as[2].as) = 1 /\ s.as[2].as[1].k = "str"
+    THEN [is |-> TRUE, name |-> s.as[2].as[1].name, wrap |-> 1]
+  ELSE IF s.k = "call" /\ s.f = "probe" /\ Len(s.as) = 1 /\ DirectUse(s.as[1]) /\ Len(s.as[1].as) = 1 /\ s.as[1].as[1].k = "str"
+    THEN [is |-> TRUE, name |-> s.as[1].as[1].name, wrap |-> 0]
+  ELSE IF s.k = "assign" /\ Len(s.ls) = 1 /\ Len(s.rs) = 1 /\ s.op = "=" /\ s.ls[1].k = "id" /\ DirectUse(s.rs[1])
+          /\ Len(s.rs[1].as) = 1 /\ s.rs[1].as[1].k = "str"
+    THEN [is |-> TRUE, name |-> s.rs[1].as[1].name, wrap |-> 0]
+  ELSE NoLead
 Use1(st, r) == IF ~r.ok THEN r
                ELSE IF st.v2 /\ r.v.t = "void" THEN E(r.st, "no-value")
                ELSE IF r.v.t = "multi" THEN E(r.st, "multi-value")
